@@ -284,6 +284,112 @@ func rawPlan(thorough bool) *plan {
 	return p
 }
 
+// numWatchCPU is the per-batch CPU watchdog of the numeric edge space NUM.  A
+// batch is 128 calls; measured on the unchanged tree (TestDevBatchCost, loaded
+// machine) the slowest batch -- dotimes running into the step budget -- costs
+// 0.3 s, so 30 leaves a >= 100x margin.  NUM-wide (thorough; ten times the
+// step budget, batches of 32) keeps the default watchdog.
+const numWatchCPU = 30
+
+// numMaxSet is the largest number of positions that hold a member of N at
+// once, by arity.
+func numMaxSet(n int, thorough bool) int {
+	if thorough {
+		switch {
+		case n <= 4:
+			return 3
+		case n <= 6:
+			return 2
+		}
+		return 1
+	}
+	switch {
+	case n <= 3:
+		return 3
+	case n <= 5:
+		return 2
+	}
+	return 1
+}
+
+// numDefault is the argument of a position that holds no member of N: the
+// formal-aware default for a function (a sequence where the formal says
+// sequence, a type specifier, a function ...), the formal-aware FORM for a
+// special operator or macro.
+func numDefault(c *callable, pos int) string {
+	if c.special() {
+		if d := formOthersAlpha(c, pos, 1)[0]; d != `1` {
+			return d
+		}
+		return `2` // the form default of an unnamed formal is `1`, a member of N
+	}
+	return slotDefault(c, pos)
+}
+
+// numSlot is the alphabet of a position that holds a member of N: the number
+// itself, except where a special operator takes its count inside a control
+// sequence -- (dotimes (i N) ...).
+func numSlot(c *callable, pos int, nums []string) []string {
+	if name, _ := c.formalAt(pos); c.special() && strings.EqualFold(name, "control-sequence") {
+		out := make([]string, len(nums))
+		for i, x := range nums {
+			out[i] = "(i " + x + ")"
+		}
+		return out
+	}
+	return nums
+}
+
+// numPlan: every registered callable (functions, special operators and macros
+// alike: a number is a form) x every bindable arity x every non-empty set P of
+// at most numMaxSet positions x every assignment of N to P, the positions
+// outside P at their default.  No default is a member of N (checked), so a
+// tuple determines its P and the strata are disjoint.
+func numPlan(thorough bool) *plan {
+	p := &plan{}
+	nums := numAlphabet(thorough)
+	isNum := map[string]bool{}
+	for _, x := range nums {
+		isNum[x] = true
+	}
+	for _, c := range registry() {
+		top := c.maxBindable()
+		for n := 1; n <= top; n++ {
+			if !c.bindable(n) {
+				continue
+			}
+			defs := make([]string, n)
+			for i := range defs {
+				defs[i] = numDefault(c, i)
+				if isNum[defs[i]] {
+					panic("c03: numPlan default " + defs[i] + " is a member of N: strata would overlap")
+				}
+			}
+			for k := 1; k <= numMaxSet(n, thorough) && k <= n; k++ {
+				for _, P := range subsets(n, k) {
+					slots := make([][]string, n)
+					for i := range slots {
+						slots[i] = []string{defs[i]}
+					}
+					for _, i := range P {
+						slots[i] = numSlot(c, i, nums)
+					}
+					p.add(c, "", fmt.Sprintf("NUM/n=%d/set=%s", n, intsKey(P)), slots)
+				}
+			}
+		}
+	}
+	return p
+}
+
+func intsKey(P []int) string {
+	s := make([]string, len(P))
+	for i, x := range P {
+		s[i] = fmt.Sprint(x)
+	}
+	return strings.Join(s, ",")
+}
+
 // closurePlan: every callable x every bindable arity x every position holding
 // each value of vals, the other positions at their default (quick) or over a
 // small alphabet (thorough).
@@ -642,6 +748,21 @@ func buildSpace(name string, thorough bool, aux auxData) (*space, error) {
 		return planSpace(name, l0Plan(thorough), "sweep", 2048, 64), nil
 	case "RAW":
 		return planSpace(name, rawPlan(thorough), "sweep", 2048, 64), nil
+	case "NUM", "NUM-wide":
+		// numeric edge tuples.  What bounds a loop INSIDE a builtin is the
+		// per-operation allocation limit alone (steps and deadlines are consulted
+		// between evaluation steps), so NUM runs under the sweep limits with
+		// MaxAlloc 1000 and MaxSteps 2*10^4: a loop that consults its limit is
+		// refused after 10^3 turns, one that does not is seen by the watchdog.
+		// NUM-wide (thorough) repeats the QUICK tier's tuples under the sweep
+		// profile itself (MaxAlloc 10^5, MaxSteps 2*10^5: every refusal costs a
+		// hundred times more, so the larger alphabet stays with NUM).
+		if name == "NUM-wide" {
+			return planSpace(name, numPlan(false), "sweep", 32, 64), nil
+		}
+		sp := planSpace(name, numPlan(thorough), "sweep-tight", 128, 64)
+		sp.WatchCPU = numWatchCPU
+		return sp, nil
 	case "V1", "V2":
 		return planSpace(name, closurePlan(aux.Vals, aux.Kinds, thorough && name == "V1", name), "sweep", 2048, 64), nil
 	case "sink-cyclic":
